@@ -26,11 +26,19 @@ RULE = ('valid base scenarios (chains of 1..4 certificates under a root CA ancho
         'wildcard leftmost / two labels / parent / dot-less / middle / partial / literal, embedded NUL, UTF-8, punycode, '
         'prefix / suffix, trailing dot, CN vs SAN combinations, string types, no server name); leaf KeyUsage bit sets; '
         'v1/v2 leaf, version 4, empty chain, swapped / missing / duplicated certificates; extension and attribute OIDs that extend, '
-        'truncate or alias a recognised OID. Half of the accepted cases are re-run in API-level variants: RSA anchor keys '
+        'truncate or alias a recognised OID; string-decoding strictness in CN / O / OU / dNSName (overlong, truncated, '
+        'surrogate, > U+10FFFF UTF-8; unpaired UTF-16 surrogates in BMPString; valid 2/3/4-byte characters and BMPString '
+        'above U+0080 / U+0800: exact UTF-8 bytes expected); names of 254 / 255 / 256 / 300 bytes in CN / dNSName / O with '
+        'name-element buffers of 255 / 256 / 257 bytes and server names cut at 255; direct-trust and CA anchors whose key '
+        'differs from the right one in e only, in the last byte of Q, or in the Y half of Q. Half of the accepted cases are re-run in API-level variants: RSA anchor keys '
         'written with leading zero bytes (same result), time callback reporting the time unavailable (TIME_UNKNOWN), last '
         'byte of a certificate missing, an empty certificate first (rejected). Every case runs with static '
         'anchors under whole-certificate, seeded random and (1 in 4) bytewise chunking, and - when the anchor names are '
-        'pairwise distinct - with all anchors behind the dynamic callback and with a static/dynamic mix. Sweep: for '
+        'pairwise distinct - with all anchors behind the dynamic callback, with a static/dynamic mix and (1 in 4) with a '
+        'NULL free callback; every second case once more through br_x509_minimal_init_full (judged when the case '
+        'configuration is what that function sets); context reuse (1 in 4) with static and with dynamic anchors, '
+        'name-element buffers overwritten in between; get_pkey with usages == NULL in every validation; the known-key '
+        'engine (br_x509_knownkey_init_rsa / _ec) fed with the chain of every second case. Sweep: for '
         'accepted CA-anchored chains every byte of every TBS and signature value before the anchor XORed with 0x01, 0x80 '
         'and a random third value. A case is distinct by its mutation class x configuration tuple.')
 ASSUMPTIONS = [
@@ -38,6 +46,8 @@ ASSUMPTIONS = [
     'error codes are compared only for single-defect cases; multi-defect cases only require rejection',
     'cases on which the documentation is silent are executed but not judged (counter unjudged_doc_silent): direct trust with an expired / garbage-trailed / critical-extension leaf, SAN without dNSName plus matching CN, several CN with different outcomes, empty KeyUsage',
     'SAN-derived name elements are judged only when a server name is given (the header says the SAN is parsed only then); name elements are judged only on accepted chains',
+    'strings whose treatment the header leaves open are executed and only bounded (name element: status -1, or 1 with the exact UTF-8 bytes; a server-name match through them is not judged, a mismatch is): more than 255 bytes of UTF-8, BMPString with a surrogate pair',
+    'a trust anchor whose pkey.key_type carries BR_KEYTYPE_KEYX / _SIGN bits is outside the header ("for a public key, the basic key type only is set"): executed and compared, not judged (unjudged_anchor_keytype_flags*)',
     'generated certificates are well-formed DER; DER-level malformation belongs to C05',
     'validation time is always set explicitly (the system-clock fallback is not exercised)',
 ]
@@ -46,7 +56,9 @@ DISTINCT = ['config']
 REQUIRED = ['cases', 'cmp_verdict', 'expected_accept', 'expected_reject', 'cmp_code', 'cmp_key', 'cmp_usages',
             'cmp_names', 'cmp_dates', 'cmp_chunking', 'chunking_bytewise', 'cmp_dynamic', 'cmp_dynfree',
             'dyn_returned', 'dyn_freed', 'dyn_accept_via_callback', 'cmp_sweep_tbs', 'cmp_sweep_sig', 'sweep_chains',
-            'unjudged_doc_silent']
+            'unjudged_doc_silent', 'cmp_init_full', 'cmp_knownkey', 'knownkey_rsa', 'knownkey_ec', 'cmp_dynamic_null_free',
+            'dyn_null_free_returned', 'cmp_getpkey_null_usages', 'context_reuse_dynamic_anchors',
+            'context_reuse_dyn_returned', 'context_reuse_poisoned_buffers']
 
 NW = 16
 PARAMS = {
